@@ -21,6 +21,17 @@ def engine():
     return _ctx["it"], _ctx["L"]
 
 
+def load_problems():
+    it, L = engine()
+    return [(n, ln, why) for n, m in L.mods.items() for ln, why in getattr(m, "skipped", [])]
+
+
+def new_pack(pid, title):
+    p = Pack(pid, title)
+    p.load_problems = load_problems
+    return p
+
+
 def model_value(m, term):
     if m is None:
         return None
